@@ -29,6 +29,9 @@ import (
 //  5. appendIndex: for the same calls, what becomes of the index AppendRecord returned (see
 //     appendIndexVerdict): "returned" (it reaches the caller's result) / "dropped" / "local-use" /
 //     "recomputed:<expr>" (the caller reports an index it got some other way).
+//  6. appendSideWriters: for the same calls, the OTHER calls of the function that are given the same record
+//     file path and can create / truncate / write it outside AppendRecord (see sideWriterVerdict):
+//     "no-other-writer" / "other-writer:<callee>".
 func init() {
 	register("Lock", func(l *loader, repo, out string) {
 		lf := newLean("Lock")
@@ -116,6 +119,16 @@ func init() {
 				lf.raw(", ")
 			}
 			lf.raw(fmt.Sprintf("(%q, %q)", c[0], c[2]))
+		}
+		lf.raw("]\n\n")
+
+		lf.raw("/-- caller of cmsys.AppendRecord ↦ other calls given the same path that can write the record file. -/\n")
+		lf.raw("def appendSideWriters : List (String × String) := [")
+		for i, c := range callers {
+			if i > 0 {
+				lf.raw(", ")
+			}
+			lf.raw(fmt.Sprintf("(%q, %q)", c[0], c[3]))
 		}
 		lf.raw("]\n")
 		lf.write(out)
@@ -602,8 +615,9 @@ func closesFile(info *types.Info, c *ast.CallExpr, file types.Object) bool {
 
 // appendCallers (fact 4): one entry per call of cmsys.AppendRecord in the repository, "<pkg>.<func>"
 // (with "#k" from the second call in one function on).
-func appendCallers(all []*packages.Package) [][3]string {
-	var out [][3]string
+func appendCallers(all []*packages.Package) [][4]string {
+	decls := funcDecls(all)
+	var out [][4]string
 	for _, pp := range all {
 		pk := strings.TrimPrefix(strings.TrimPrefix(pp.PkgPath, modPath), "/")
 		for _, f := range pp.Syntax {
@@ -630,7 +644,7 @@ func appendCallers(all []*packages.Package) [][3]string {
 							name += fmt.Sprintf("#%d", k)
 						}
 						st := append([]ast.Node{}, stack...)
-						out = append(out, [3]string{name, appendCallerVerdict(pp.TypesInfo, c, st), appendIndexVerdict(pp.TypesInfo, fd, c, st)})
+						out = append(out, [4]string{name, appendCallerVerdict(pp.TypesInfo, c, st), appendIndexVerdict(pp.TypesInfo, fd, c, st), sideWriterVerdict(pp.TypesInfo, fd, c, decls)})
 					}
 					return true
 				})
@@ -1080,4 +1094,198 @@ func appendIndexVerdict(info *types.Info, fd *ast.FuncDecl, call *ast.CallExpr, 
 		return "local-use"
 	}
 	return "dropped"
+}
+
+// ---------------------------------------------------------------- round 7: other writers of the same record file
+
+type declInfo struct {
+	fd   *ast.FuncDecl
+	info *types.Info
+}
+
+func funcDecls(all []*packages.Package) map[types.Object]declInfo {
+	m := map[types.Object]declInfo{}
+	for _, pp := range all {
+		for _, f := range pp.Syntax {
+			for _, d := range f.Decls {
+				if fd, ok := d.(*ast.FuncDecl); ok && fd.Body != nil {
+					if o := pp.TypesInfo.Defs[fd.Name]; o != nil {
+						m[o] = declInfo{fd, pp.TypesInfo}
+					}
+				}
+			}
+		}
+	}
+	return m
+}
+
+func calleeFunc(info *types.Info, c *ast.CallExpr) *types.Func {
+	var id *ast.Ident
+	switch f := c.Fun.(type) {
+	case *ast.SelectorExpr:
+		id = f.Sel
+	case *ast.Ident:
+		id = f
+	default:
+		return nil
+	}
+	fn, _ := info.Uses[id].(*types.Func)
+	return fn
+}
+
+// fileWriterCall: a call that by itself creates, truncates, removes, renames or opens-for-writing a file.
+func fileWriterCall(info *types.Info, c *ast.CallExpr) bool {
+	fn := calleeFunc(info, c)
+	if fn == nil {
+		return false
+	}
+	pkg := ""
+	if fn.Pkg() != nil {
+		pkg = fn.Pkg().Path()
+	}
+	switch fn.Name() {
+	case "Create", "CreateTemp", "Truncate", "Remove", "RemoveAll", "WriteFile", "Rename", "Link", "Symlink":
+		return pkg == "os" || pkg == "io/ioutil" || pkg == "syscall" || pkg == "golang.org/x/sys/unix"
+	case "OpenFile":
+		if pkg != "os" || len(c.Args) < 2 {
+			return pkg == "os"
+		}
+		fl := types.ExprString(c.Args[1])
+		return strings.Contains(fl, "O_WRONLY") || strings.Contains(fl, "O_RDWR") || strings.Contains(fl, "O_TRUNC") ||
+			strings.Contains(fl, "O_CREATE") || strings.Contains(fl, "O_APPEND") || !strings.Contains(fl, "O_RDONLY")
+	}
+	return false
+}
+
+// sideWriterVerdict — the record file is named by the first argument of the AppendRecord call. Every other
+// call in the same function that is given the same path (the same variable, or a textually identical
+// expression) is looked at:
+//
+//	a call that itself creates / truncates / removes / renames / opens-for-writing (os.Create, os.OpenFile
+//	with a writing flag, os.Truncate, os.Remove, os.WriteFile, os.Rename, …)         "other-writer:<callee>"
+//	a function of the repository (any package) whose body contains such a call, a (*os.File).Truncate,
+//	or a call of cmsys.SubstituteRecord / DeleteRecord (one level: its own body)      "other-writer:<callee>"
+//	cmsys.AppendRecord itself (a second append), functions of the repository without such a call,
+//	and os.Stat / os.Open / os.Lstat, path/filepath, fmt, logrus, errors               not a writer
+//	any other function outside the repository                                           "unknown:callee:<name>"
+//
+// cmsys.SubstituteRecord / DeleteRecord called directly: "other-writer:<callee>", except in a block of its own
+// that ends with return and does not contain the append: "exclusive-slot-writer".
+// "no-other-writer" when nothing is found. Only calls given the SAME path are counted: the article file that
+// DoPostArticle renames is another file.
+func sideWriterVerdict(info *types.Info, fd *ast.FuncDecl, call *ast.CallExpr, decls map[types.Object]declInfo) string {
+	if len(call.Args) == 0 {
+		return "unknown:no-path-argument"
+	}
+	pathExpr := stripConv(info, call.Args[0])
+	pathObj := identObj(info, pathExpr)
+	pathText := types.ExprString(pathExpr)
+	samePath := func(e ast.Expr) bool {
+		e = stripConv(info, e)
+		if pathObj != nil {
+			return identObj(info, e) == pathObj
+		}
+		return types.ExprString(e) == pathText
+	}
+	verdict := "no-other-writer"
+	var stack []ast.Node
+	ast.Inspect(fd.Body, func(n ast.Node) bool {
+		if n == nil {
+			stack = stack[:len(stack)-1]
+			return true
+		}
+		stack = append(stack, n)
+		c, ok := n.(*ast.CallExpr)
+		if !ok || c == call || strings.HasPrefix(verdict, "other-writer:") {
+			return true
+		}
+		given := false
+		for _, a := range c.Args {
+			if samePath(a) {
+				given = true
+			}
+		}
+		if !given {
+			return true
+		}
+		if tv, ok := info.Types[c.Fun]; ok && tv.IsType() {
+			return true
+		}
+		fn := calleeFunc(info, c)
+		name := calleeName(c)
+		if fn == nil {
+			if _, isBuiltin := info.Uses[identOf(c.Fun)].(*types.Builtin); isBuiltin {
+				return true
+			}
+			verdict = "unknown:callee:" + name
+			return true
+		}
+		if cmsysFunc(info, c, "AppendRecord") != "" {
+			return true
+		}
+		if fileWriterCall(info, c) {
+			verdict = "other-writer:" + name
+			return true
+		}
+		if cmsysFunc(info, c, "SubstituteRecord", "DeleteRecord") != "" {
+			// an in-place write of one slot. In a branch of its own that returns without reaching the append
+			// (ptt.addBoardRecord re-uses a vacated slot of .BRD, else appends) it is the request's alternative
+			// to appending, not a second writer beside its append.
+			exclusive := false
+			for k := len(stack) - 1; k >= 0; k-- {
+				if b, ok := stack[k].(*ast.BlockStmt); ok && b != fd.Body {
+					_, ret := b.List[len(b.List)-1].(*ast.ReturnStmt)
+					exclusive = ret && !(b.Pos() <= call.Pos() && call.End() <= b.End())
+					break
+				}
+			}
+			if exclusive {
+				if verdict == "no-other-writer" {
+					verdict = "exclusive-slot-writer"
+				}
+			} else {
+				verdict = "other-writer:" + name
+			}
+			return true
+		}
+		if d, ok := decls[fn]; ok {
+			writes := false
+			ast.Inspect(d.fd.Body, func(m ast.Node) bool {
+				if cc, ok := m.(*ast.CallExpr); ok {
+					if fileWriterCall(d.info, cc) || cmsysFunc(d.info, cc, "SubstituteRecord", "DeleteRecord") != "" {
+						writes = true
+					}
+					if sel, ok := cc.Fun.(*ast.SelectorExpr); ok && sel.Sel.Name == "Truncate" {
+						writes = true
+					}
+				}
+				return !writes
+			})
+			if writes {
+				verdict = "other-writer:" + name
+			}
+			return true
+		}
+		pkg := ""
+		if fn.Pkg() != nil {
+			pkg = fn.Pkg().Path()
+		}
+		switch {
+		case pkg == "os" && (name == "Stat" || name == "Lstat" || name == "Open" || name == "ReadFile"):
+		case pkg == "path" || pkg == "path/filepath" || pkg == "fmt" || pkg == "errors" || pkg == "strings" || pkg == "log" || strings.HasSuffix(pkg, "/logrus"):
+		default:
+			if verdict == "no-other-writer" {
+				verdict = "unknown:callee:" + name
+			}
+		}
+		return true
+	})
+	return verdict
+}
+
+func identOf(e ast.Expr) *ast.Ident {
+	if id, ok := e.(*ast.Ident); ok {
+		return id
+	}
+	return &ast.Ident{}
 }
